@@ -1,6 +1,6 @@
 """Source of MANIFEST.json (bin/mkmanifest)."""
 
-HOOK_COMMITS = ["46e32d5", "6ebd8b8", "07a8fb2"]  # unguarded repairs are separate "fix:" commits, see known_findings.json
+HOOK_COMMITS = ["46e32d5", "6ebd8b8", "07a8fb2", "1b93db0"]  # unguarded repairs are separate "fix:" commits, see known_findings.json
 
 ENGINES = [
     {"name": "tlc+runner", "path": "/verif/bin/check",
